@@ -72,6 +72,7 @@ type FnRun struct {
 	frameAll      bool
 	globalsChecked map[string]bool
 	frameN        int
+	lockTouched   map[string]bool // components forgotten at Lock/Unlock of a lock-style monitor (exempt from the frame check)
 }
 
 type closureInfo struct {
@@ -84,7 +85,7 @@ func (e *Engine) NewRun(fn *ssa.Function, c *Contract) *FnRun {
 	r := &FnRun{Eng: e, Sc: sc, TM: NewTypeMap(sc, ModulePath), Heap: NewHeap(sc), Fn: fn, Contract: c,
 		Trusted: map[string]bool{}, Notes: map[string]bool{}, Inlined: map[string]bool{}, addrTable: map[string]*Loc{},
 		closures: map[string]*closureInfo{}, funcRefs: map[string]*ssa.Function{}, factsDone: map[string]bool{}, nameCount: map[string]int{},
-		globalsChecked: map[string]bool{}, snaps: map[string]*State{}, constCells: map[string]Term{}, trackTypes: map[string]types.Type{}, UsedContracts: map[string]bool{}, SpecFuns: map[string]bool{}}
+		globalsChecked: map[string]bool{}, snaps: map[string]*State{}, constCells: map[string]Term{}, trackTypes: map[string]types.Type{}, UsedContracts: map[string]bool{}, SpecFuns: map[string]bool{}, lockTouched: map[string]bool{}}
 	return r
 }
 
